@@ -655,6 +655,12 @@ class Check:
             sd = seed * 1000 + 560 + s
             specs.append({"name": f"actions-offhost-{sd}", "kind": "actions", "seed": sd, "family": fams[s % 3], "sclasses": ["pristine", "started-late", "node-booting"],
                           "budget": 160 if q else 600, "knobs": {"off_host": True, "min_clients": 2}})
+        for s in range(2 if q else 10):  # wireless-router family: the access point's and the airspace's request paths
+            sd = seed * 1000 + 300 + s
+            for sc in (["pristine", SCLASSES[1 + s % (len(SCLASSES) - 1)]] if q else SCLASSES):
+                specs.append({"name": f"tree-wlan-{sd}-{sc}", "kind": "tree", "seed": sd, "family": "wlan", "sclass": sc,
+                              "budget": (320 if sc == "pristine" else 90) if q else 500, "vecs": 4, "muts": (2 if sc == "pristine" else 4) if q else 8})
+            specs.append({"name": f"actions-wlan-{sd}", "kind": "actions", "seed": sd, "family": "wlan", "sclasses": SCLASSES, "budget": 120 if q else 600})
         for fam in ("lan", "routed"):
             for far in ("live", "node-off", "nic-off", "terminal-stopped", "path-down", "near-nic-off", "timed-out"):
                 for warm in (True, False):
